@@ -281,7 +281,7 @@ func main() {
 			"the overlay shims (verifrt) preserve the semantics of the primitives they wrap",
 		}
 		if r.Thorough() {
-			r.Deadline = 45 * time.Minute
+			r.Deadline = 60 * time.Minute
 		}
 		if !mc.Instrumented {
 			panic("C05 must be built with the overlay (-tags verifrt)")
@@ -318,9 +318,14 @@ func main() {
 							// two threads with two registrations each: 1.5-2 million interleavings per
 							// scenario (measured; a preemption bound of 2 without reduction costs more):
 							// only for the callback count at which the listener slice has spare capacity
-							if ex == "default" && k == 3 {
+							comp := false
+							for _, rl := range roles {
+								comp = comp || rl.completer()
+							}
+							if ex == "default" && k == 3 && comp && two == 2 {
 								sc := r.Conc(fmt.Sprintf("k%d/%s/%s", k, strings.Join(names, ","), ex), -1, scenario(k, roles, ex))
 								sc.SplitDepth = 4
+								sc.Shard = true // all workers share each of these
 							}
 							continue
 						}
@@ -353,6 +358,7 @@ func main() {
 					}
 					sc := r.Conc(fmt.Sprintf("t4/k%d/%s/default", k, strings.Join(names, ",")), -1, scenario(k, roles, "default"))
 					sc.SplitDepth = 4
+					sc.Shard = true
 				}
 			}
 		}
